@@ -82,7 +82,7 @@ var (
 	SelectDeviated int // selects whose cases were polled in another than the source order
 	// SchedFixed: always the first candidate / source order (runs that are compared call by call with the baseline,
 	// e.g. "the same I/O error at the k-th file operation", need the baseline's schedule)
-	SchedFixed bool
+	SchedFixed     bool
 	NumCPUOverride = []int{4, 1, 16}
 )
 
